@@ -658,9 +658,9 @@ Section WithApi.
   Theorem imports_string_prints_all s q :
     In q (g_imports s) ->
     exists line, In line (map (fun imp_ => let parts := split_ch dot imp_ in
-                                           K"from " ++ escape (conv nc (join DOT (removelast parts))) ++ K" import " ++
+                                           K"from " ++ escape_path (conv nc (join DOT (removelast parts))) ++ K" import " ++
                                            escape (conv nc (last parts []))) (g_imports s)) /\
-                 line = K"from " ++ escape (conv nc (join DOT (removelast (split_ch dot q)))) ++ K" import " ++
+                 line = K"from " ++ escape_path (conv nc (join DOT (removelast (split_ch dot q)))) ++ K" import " ++
                         escape (conv nc (last (split_ch dot q) [])).
   Proof. intro H. eexists. split; [|reflexivity]. apply in_map_iff. exists q. split; [reflexivity|exact H]. Qed.
 End WithApi.
